@@ -13,6 +13,7 @@ type prioGen struct {
 	Dividers []string
 	Mode     string // general | saturate | progress | terminate | stop | addrm
 	MaxH     uint
+	Starve   bool // v1 variants only: H for which the divider leaves some priority without a share (accepted by the v1 constructors)
 }
 
 var prioValuePools = [][]uint{
@@ -135,6 +136,20 @@ func genPrioScenario(rng *rand.Rand, g prioGen) PrioScenario {
 		if try > 30 {
 			prios = []uint{3, 2, 1}
 		}
+		if g.Starve && try <= 30 && rng.IntN(2) == 0 {
+			// a few close values (and a small one): Rate rounds several parts up, runs out of
+			// the dividend and leaves the last priorities without any entry in the distribution
+			base, n := uint(4+rng.IntN(20)), 2+rng.IntN(4)
+			prios = prios[:0]
+			for i := n; i >= 1; i-- {
+				prios = append(prios, base+uint(i))
+			}
+			if rng.IntN(2) == 0 {
+				prios = append(prios, uint(1+rng.IntN(3)))
+			}
+			sc.Divider = "rate"
+			div = customDivider(sc.Divider, sc.DivSeed)
+		}
 		if (prios[0] > 1<<40 || prios[len(prios)-1] == 0 || len(prios) > 5) && sc.Divider != "fair" && sc.Divider != "revfair" {
 			// Rate / weight based dividers sum or scale the values: beyond 2^40 only the
 			// order-based dividers are meaningful
@@ -186,6 +201,30 @@ func genPrioScenario(rng *rand.Rand, g prioGen) PrioScenario {
 		}
 		if sc.H <= 700 {
 			break
+		}
+	}
+	if g.Starve && sc.isV1() {
+		// the v1 constructors accept a HandlersQuantity for which some priority gets no share:
+		// such a priority may starve, so nothing is claimed about progress, but the safety
+		// properties (capacity, exactly-once, divider contract) hold there as everywhere
+		div0 := func(prios []uint, h uint) bool {
+			d := sharesOf(div, prios, h)
+			for _, p := range prios {
+				if d[p] == 0 {
+					return true
+				}
+			}
+			return false
+		}
+		var bad []uint
+		for q := uint(1); q <= sc.H+8; q++ {
+			if div0(prios, q) {
+				bad = append(bad, q)
+			}
+		}
+		if len(bad) > 0 {
+			sc.H = bad[rng.IntN(len(bad))]
+			sc.Starved = true
 		}
 	}
 	if rng.IntN(25) == 0 && sc.H > 1 && !sc.isV1() {
@@ -258,6 +297,33 @@ func genPrioScenario(rng *rand.Rand, g prioGen) PrioScenario {
 		}
 		sc.Inputs = append(sc.Inputs, PInputSpec{P: p, Cap: c, Prefill: pre})
 		left[p] = n - pre
+	}
+	if sc.Starved && rng.IntN(2) == 0 {
+		// a priority without a share is the only one that has data: it works on handlers
+		// borrowed from the idle ones
+		d := sharesOf(div, prios, sc.H)
+		var zero []int
+		for i, p := range prios {
+			if d[p] == 0 {
+				zero = append(zero, i)
+			}
+		}
+		if len(zero) > 0 {
+			z := zero[rng.IntN(len(zero))]
+			if rng.IntN(2) == 0 {
+				z = zero[len(zero)-1]
+			}
+			for i := range sc.Inputs {
+				sc.Inputs[i].Prefill = 0
+			}
+			sc.Inputs[z].Cap = 3*H + 6
+			sc.Inputs[z].Prefill = 3*H + 6
+			left[prios[z]] = 0
+			sc.Script = append(sc.Script, POp{K: "D"})
+			for i := rng.IntN(3); i > 0; i-- {
+				sc.Script = append(sc.Script, POp{K: "R", Mode: []string{"one", "random", "all"}[rng.IntN(3)], N: 1 + rng.IntN(H)}, POp{K: "D"})
+			}
+		}
 	}
 	anyLeft := func() bool {
 		for _, n := range left {
